@@ -88,6 +88,10 @@ PROPS = {
         clauses=[
             ['feed(data) == fold of feed_byte over data, no writes of its own', 'P'],
             ['Parser.feed_byte / feed keep the tokenizer queue drained and only append to the message queue', 'P'],
+            ['Parser.feed / feed_byte hand exactly their bytes, in order, to the parser\'s own tokenizer (any data kind and length, '
+             'one-element chunks included), call _decode afterwards and queue nothing by themselves', 'P'],
+            ['Tokenizer.__iter__ (the way _decode takes tokens out): FIFO over a queue of any length, leaves it empty; __len__', 'P'],
+            ['every cut of short streams into chunks of 5 kinds, retrieval interleaved: same messages as the whole stream', 'B'],
             ['get_message / pending / __iter__ on a queue of any length: FIFO, None iff empty', 'P'],
             ['ParserQueue.put_bytes / poll / iterpoll', 'PA (queue.Queue FIFO)'],
             ['Parser() / Tokenizer() establish the invariant: idle, empty, UNBOUNDED queues; alias discipline (a queued token is never changed again)', 'P'],
@@ -338,7 +342,9 @@ PROPS = {
         note='trusted: pyvc, z3/cvc5; ASSUMED device contract and sequential semantics inside one call; termination of a '
              'blocking receive on an idle open device is environment-dependent and not claimed; SocketPort/PortServer are under C18',
         clauses=[
-            ['close idempotent, device released once, autoreset once before release, OSError swallowed; __exit__/__del__', 'P'],
+            ['close idempotent, device released once, autoreset once before release, OSError swallowed; __exit__/__del__; for device '
+             'classes that override _send() and for those that override the public send() (rtmidi/amidi style)', 'P'],
+            ['reset() / panic(): exactly the documented control changes reach the device, in order, once; nothing on a closed port', 'P'],
             ['send: closed -> ValueError, non-message -> TypeError, else exactly one device send of an equal fresh copy', 'P'],
             ['receive/poll: drain first, non-blocking never waits, waits only while open and nothing deliverable', 'P'],
             ['iteration over a closed port: pending messages in order, then stops, no exception', 'P'],
